@@ -788,9 +788,12 @@ class Interp:
                 return self._const_term(v)
             return ("global", r[1].name, text)
         if r[0] == "classattr":
-            ok, v = self.repo.class_const(r[1], r[2])
-            if ok:
-                return self._const_term(v)
+            # a class-level name that is re-assigned at run time (cls.X = ... in a classmethod) is
+            # not the constant of the class body
+            if self._class_attr_kind(r[1], r[2]) == "const":
+                ok, v = self.repo.class_const(r[1], r[2])
+                if ok:
+                    return self._const_term(v)
             return ("clsattr", r[1].name, r[2])
         return ("unknown", text)
 
@@ -1151,6 +1154,12 @@ class Interp:
         v = self._eval(e.value, st, act)
         st.env[e.target.id] = v
         return v
+
+    def _e_Slice(self, e, st, act):
+        return ("slice",
+                self._eval(e.lower, st, act) if e.lower else CONST_NONE,
+                self._eval(e.upper, st, act) if e.upper else CONST_NONE,
+                self._eval(e.step, st, act) if e.step else CONST_NONE)
 
     def _e_Starred(self, e, st, act):
         return ("starred", self._eval(e.value, st, act))
